@@ -4,6 +4,7 @@ C11 — dump omits exactly the fields selected by skip rules, exclude and dump=F
 import DW.Generated.Tables
 import DW.Model.Dump
 import DW.Lemmas.RoundTrip
+import DW.Lemmas.GenDumpSem
 
 namespace DW.Props.C11
 open DW
@@ -171,5 +172,110 @@ theorem C11_dump_keys_exact (std : Std) (ts : Bool) (cfg : Option MetaCfg) (eff 
               have ih := C11_dump_keys_exact std ts cfg eff args ci rest more (fun p hp => hca p (by simp [hp])) hmore
               have hkey : keyOf eff (fiOf ci n) = k := by simp [keyOf, fiOf, hk]
               simp [List.filter, ← hsel, hkey, ih]
+
+/-! ### the generated code itself
+
+The theorems above are about the dump *model* (`dumpFields`: a hand transcription of what the generated `cls_asdict` computes).
+The theorems below close that gap for the selection: they are about the **text the generator writes** — `genBody` of
+`DW/Model/GenDump.lean`, which the correspondence check compares byte for byte with the library's generated source on every
+run — interpreted by `DW/Model/GenDumpSem.lean`. -/
+
+open DW.GenDump in
+/-- the reference selection, as emissions: a non-catch-all field is written under its key unless `refOmitted`; the
+catch-all field re-emits its items unless it is excluded, skipped as a default, or holds its default -/
+def refSelection (eff : MetaCfg) (args : DumpArgs) (vals : S → PyVal) (fks : List (FieldInfo × S)) : List Emit :=
+  fks.flatMap (fun q =>
+    if q.1.isCatchAll then
+      if isDefaultVal q.1 (vals q.1.name) || excluded args q.1 ||
+          (skipDefaultsOn eff args && defaultTestRef eff q.1 (vals q.1.name)) then []
+      else [.catchAll q.1.name]
+    else if refOmitted eff args q.1 (vals q.1.name) then [] else [.entry q.2 q.1.name])
+
+open DW.GenDump in
+/-- **C11 (the generated code selects exactly the reference fields).**  Take any class (`fks`: its fields with their resolved
+dump keys), any effective Meta, any `exclude=` / `skip_defaults=` arguments and any instance (`vals`), and let `ρ` be the call
+environment (`World`: `o.<f>` holds `vals f`, the arguments as passed, the closure as `dump_func_for_dataclass` filled it).
+If no comparison raises on this instance, then *running the body the generator writes for the class* yields exactly the
+reference selection — every non-omitted field once, under its key, in declaration order, the catch-all items, then the tag
+entry — and never hits a statement form the interpreter does not know. -/
+theorem C11_generated_code_selects (p : Char → Bool) (ρ : Env) (eff : MetaCfg) (args : DumpArgs)
+    (fks : List (FieldInfo × S)) (vals : S → PyVal) (W : World p eff args fks vals ρ)
+    (Hd : ∀ q ∈ fks, ∃ b, defaultTest eff q.1 (vals q.1.name) = .ok b)
+    (Ho : ∀ q ∈ fks, ∃ b, ownCond eff q.1 (vals q.1.name) = .ok b) :
+    run ρ (genBody p (ginOf eff fks)) = .ok (refSelection eff args vals fks ++ tagEmits (ginOf eff fks)) := by
+  have Hd' : ∀ q ∈ fks, defaultTest eff q.1 (vals q.1.name) = .ok (defaultTestRef eff q.1 (vals q.1.name)) := by
+    intro q hq
+    obtain ⟨b, hb⟩ := Hd q hq
+    rw [hb, defaultTest_ok eff q.1 _ b hb]
+  have Ho' : ∀ q ∈ fks, ownCond eff q.1 (vals q.1.name) = .ok (ownCondRef eff q.1 (vals q.1.name)) := by
+    intro q hq
+    obtain ⟨b, hb⟩ := Ho q hq
+    rw [hb, ownCond_ok eff q.1 _ b hb]
+  rw [run_genBody p ρ eff args fks vals W (fun fi => defaultTestRef eff fi (vals fi.name))
+    (fun fi => ownCondRef eff fi (vals fi.name)) Hd' Ho']
+  rw [emitsFrom_eq eff args fks _ _ vals fks 0 (by simp)]
+  unfold refSelection
+  congr 1
+  refine congrArg (fun l => l ++ tagEmits (ginOf eff fks)) (congrArg (fun f => List.flatMap f fks) ?_)
+  funext q
+  unfold refFieldEmit refOmitted
+  by_cases hca : q.1.isCatchAll = true
+  · simp only [hca, if_true]
+    cases isDefaultVal q.1 (vals q.1.name) <;> cases excluded args q.1 <;> simp
+  · have hca' : q.1.isCatchAll = false := by simpa using hca
+    simp only [hca', Bool.false_eq_true, if_false]
+    cases q.1.dumpSkip <;> cases excluded args q.1 <;> simp
+
+namespace Example
+open DW.GenDump
+
+/-- a concrete class: a plain field with a default, a field with its own SkipIf, a defaulted catch-all -/
+def fks : List (FieldInfo × S) :=
+  [({ name := "x".toList, dflt := some (.lit (.int 1)) }, "x".toList),
+   ({ name := "y".toList, skipIf := some ⟨.lt, .int 3⟩ }, "y".toList),
+   ({ name := "extra".toList, dflt := some (.lit .none), isCatchAll := true }, [])]
+
+def eff : MetaCfg := { skipDefaultsIf := some ⟨.is_, .none⟩, tag := some "T".toList }
+
+def vals : S → PyVal := fun n =>
+  if n = "x".toList then .none else if n = "y".toList then .int 5 else .map .dict [(.str "u".toList, .int 1)]
+
+def env : Env :=
+  { field := fun n => some (vals n), exclude := none, skipDefaults := true,
+    closure := fun n => if n = defaultName 0 then some (.dflt (.lit (.int 1)))
+                        else if n = defaultName 2 then some (.dflt (.lit .none)) else none }
+
+/-- non-vacuity: what the generated body emits for this class, instance and call (`x` is None and skipped by
+`skip_defaults_if = IS(None)`, `y` = 5 is kept by its own `LT(3)`, the catch-all items and the tag follow) -/
+example : (match run env (genBody (fun _ => true) (ginOf eff fks)) with
+    | .ok out => decide (out = [.entry "y".toList "y".toList, .catchAll "extra".toList, .tag "__tag__".toList "T".toList])
+    | .error _ => false) = true := by
+  decide +kernel
+
+/-- … and the environment meets the hypotheses of `C11_generated_code_selects` -/
+example : World (fun _ => true) eff {} fks vals env where
+  field := fun _ => rfl
+  exclude := rfl
+  skipDefaults := by decide
+  dflt := by
+    intro i fi k d hi hd
+    match i with
+    | 0 => simp [fks] at hi; obtain ⟨rfl, rfl⟩ := hi; simp at hd; subst hd; decide
+    | 1 => simp [fks] at hi; obtain ⟨rfl, rfl⟩ := hi; simp at hd
+    | 2 => simp [fks] at hi; obtain ⟨rfl, rfl⟩ := hi; simp at hd; subst hd; decide
+    | n + 3 => simp [fks] at hi
+  skipIf := by
+    intro i fi k c hi hc hb
+    match i with
+    | 0 => simp [fks] at hi; obtain ⟨rfl, rfl⟩ := hi; simp at hc
+    | 1 => simp [fks] at hi; obtain ⟨rfl, rfl⟩ := hi; simp at hc; subst hc; revert hb; decide
+    | 2 => simp [fks] at hi; obtain ⟨rfl, rfl⟩ := hi; simp at hc
+    | n + 3 => simp [fks] at hi
+  skipValue := by intro c hc; simp [eff] at hc
+  skipDefaultsValue := by
+    intro c hc hb
+    simp [eff] at hc; subst hc; revert hb; decide
+
+end Example
 
 end DW.Props.C11
